@@ -485,8 +485,8 @@ def run(ctx, sf):
     rng = ctx.rng
     reqs, pending = [], []
     corr_pi(ctx, sf)
-    for m in list(range(-60, 61)) + [12 * 5, 63, 12 * 7 + 1]:
-        for val in (m * np.pi / 12, np.pi * m / 12):
+    for m in list(range(-150, 151)) + [12 * k for k in (13, 17, 25, 100, -33)]:
+        for val in (m * np.pi / 12, np.pi * m / 12, m * (np.pi / 12)):   # the three roundings of m*pi/12
             oracle_pi(ctx, sf, float(val))
     for _ in range(ctx.n(200, 2000)):
         oracle_pi(ctx, sf, rng.choice([rng.uniform(-20, 20), rng.randint(-9, 9) / 4, rng.randint(-40, 40) * float(np.pi) / rng.choice([1, 2, 3, 4, 6, 12, 5, 7])]))
@@ -530,4 +530,6 @@ def replay(ctx, rp):
         oracle_pi(ctx, sf, rp["value"])
     else:
         oracle_spec(ctx, sf, rp["spec"], via=rp.get("via", "text"))
-    return len(ctx.failures) > n0
+    from lib import core
+    known = core.Known()
+    return any(not known.match(ctx.pid, f["sig"]) for f in ctx.failures[n0:])
